@@ -32,6 +32,10 @@ def run_property(prop, tier, repo, only=None, quiet=False, overrides=None, write
             rx = rx.replace(a, _re.escape(b))
         return _re.compile(rx)
     specs = [(r, None) if isinstance(r, str) else (r[0], _flt(r[1])) for r in PROPS[prop]['rules']]
+    for r, _f in specs:
+        if r not in RULES:
+            # a rule the property relies on is not registered (a broken checker must never look like a pass)
+            errors.append('%s: rule is listed for %s but not implemented / not registered' % (r, prop))
     specs = [(r, f) for r, f in specs if r in RULES]
     quick_specs = list(specs)
     if tier == 'thorough':
